@@ -102,6 +102,27 @@ def choice_diff(req):
         distinct.add((repr(args), repr(kw)))
         if not (res["outcome"] == "raise" and res["exc"] == exc) and len(fails) < limit:
             fails.append({"args": enc(args), "kwargs": enc(kw), "expected": {"outcome": "raise", "exc": exc}, "observed": res})
+    # the function is pure: the SAME list objects, edited in place between calls, are read afresh on every call
+    pop3 = ["g0", "g1", "g2"]
+    ws = [1, 0, 0]
+    cw = [1, 1, 1]
+    for step, (edit, edit_c) in enumerate([(lambda: None, lambda: None), (lambda: ws.__setitem__(slice(None), [0, 1, 1]), lambda: cw.__setitem__(slice(None), [0, 1, 2])),
+                                           (lambda: ws.__setitem__(slice(None), [2, 0, 2]), lambda: cw.__setitem__(slice(None), [2, 2, 4]))]):
+        edit()
+        edit_c()
+        for k in _boundary_us(list(itertools.accumulate(ws))):
+            u = Fraction(k, TWO32)
+            for form, res in (("weights(same list object, edited in place)", _with_pos(u, b.deterministic_choice, "unit", pop3, ws)),
+                              ("cum_weights(same list object, edited in place)", _with_pos(u, b.deterministic_choice, "unit", pop3, cum_weights=cw))):
+                evals += 1
+                exp = scheme.spec_choice(3, list(ws), None, u)
+                if not (res["outcome"] == "return" and res["value"] == pop3[exp["index"]]) and len(fails) < limit:
+                    fails.append({"history": "call, edit the list in place, call again (step %d)" % step, "weights_now": list(ws), "form": form, "u": "%d/2^32" % k, "expected": exp, "observed": res})
+    ws.append(1)
+    res = _with_pos(Fraction(1, 4), b.deterministic_choice, "unit", pop3, ws)
+    evals += 1
+    if not (res["outcome"] == "raise" and res["exc"] == "ValueError") and len(fails) < limit:
+        fails.append({"history": "a 4th weight appended in place to a list used before", "expected": {"outcome": "raise", "exc": "ValueError"}, "observed": res})
     return {"evaluations": evals, "distinct": len(distinct), "failures": fails,
             "bound": "n<=%d, integer weights 0..%d (all vectors), decimal pool %r for n in 2..3, grid points adjacent to every boundary + {0,1,2^31,2^32-1}" % (max_n, max_w, extra)}
 
@@ -222,6 +243,8 @@ LIFECYCLE_TEXTS = [
     'def e2 { salt: "s" splitters: uid return "X" weighted 3, "Y" weighted 1 }',
     'def e1 { splitters: uid return "A" weighted 1, "B" weighted 9 }',
     'def e1 { splitters: uid /* c */ if uid == "u1" { return "P" weighted 1 } else { return "Q" weighted 1 } }',
+    'def e1 { salt: "a  b" splitters: uid return "A" weighted 1, "B" weighted 1, "C" weighted 1 }',
+    'def e1 { salt: "a b" splitters: uid return "A" weighted 1, "B" weighted 1, "C" weighted 1 }',
     'def e1 { return "A" weighted }',
     'def',
     'def e1 { splitters: uid return "A" weighted 1, "B" weighted 1 ',
